@@ -65,13 +65,17 @@ package dns
 // one inbound message: a header that does not decode gets no reply and no handler call; the handler runs only
 // for an accepted message that decoded; a rejected or undecodable message gets FORMERR (NOTIMP when the
 // policy says so) with the request's ID and no records; an ignored one gets nothing
-//@ func (*Server).serveDNS [C14 C12:fullsize]
+//@ func (*Server).serveDNS [C14 C12:fullsize C11:tsigstate]
 //@   opt no-safety
 //@   requires srv != nil && w != nil
 //@   callsite "ServeDNS" decoded: action == MsgAccept && called("unpack") && callres("unpack") == nil
 //@   callsite "WriteMsg" reject: action == MsgReject || action == MsgRejectNotImplemented || (action == MsgAccept && called("unpack") && callres("unpack") != nil)
 // (a policy returns one of the four MsgAcceptAction constants)
 //@   assume at "switch action := srv.MsgAcceptFunc(dh); action {" policy: action == MsgAccept || action == MsgReject || action == MsgRejectNotImplemented || action == MsgIgnore
+// RFC 8945 5.3: a signed request is verified against an empty prior MAC in full mode, and its reply is signed in full
+// mode over the request's MAC - whatever an earlier exchange on the same connection (a transfer, timers only) left
+//@   callsite "TsigVerifyWithProvider" tsigstatereq: len(arg2) == 0 && !arg3 && same(arg0, m) && arg1 == w.tsigProvider [C11 C14]
+//@   callsite "ServeDNS" tsigstate: w.tsigProvider != nil && called("IsTsig") && callres("IsTsig") != nil ==> !w.tsigTimersOnly && same(w.tsigRequestMAC, callres("IsTsig").MAC) && w.tsigStatus == callres("TsigVerifyWithProvider") [C11 C14]
 //@   callsite "WriteMsg" replyid: arg1.Id == dh.Id
 //@   callsite "WriteMsg" replyqr: arg1.Response
 //@   callsite "WriteMsg" replyrc: arg1.Rcode == (action == MsgRejectNotImplemented ? 4 : 1)
